@@ -56,6 +56,11 @@ func cmdUnits(args []string) {
 		os.Exit(2)
 	}
 	fmt.Printf("loaded in %.1fs\n", time.Since(t0).Seconds())
+	for _, lp := range ld.Order {
+		for k, r := range lp.Drift {
+			fmt.Printf("DRIFT %s.%s: %s\n", lp.Name, k, r)
+		}
+	}
 	re := regexp.MustCompile(*fre)
 	var results []*UnitResult
 	for _, lp := range ld.Order {
